@@ -136,6 +136,15 @@ def _check_main(ctx, res) -> None:
     nl_var = rets[0].value.elts[1].id if ok_a and isinstance(rets[0].value.elts[1], ast.Name) else None
     consts = sorted({const_str(n.value) for n in walk_local(dnl.node) if isinstance(n, ast.Assign)
                      and isinstance(n.targets[0], ast.Name) and n.targets[0].id == nl_var and const_str(n.value)})
+    # the convention may also be taken from the loop variable of a loop over a table of conventions
+    vals = set(consts)
+    for lp in [x for x in walk_local(dnl.node) if isinstance(x, ast.For) and isinstance(x.target, ast.Name)]:
+        if any(isinstance(n, ast.Assign) and isinstance(n.targets[0], ast.Name) and n.targets[0].id == nl_var and isinstance(n.value, ast.Name) and n.value.id == lp.target.id
+               for n in walk_local(lp)):
+            tbl = idx.literal_node(dnl.unit.modname, lp.iter, dnl.cls)
+            if isinstance(tbl, (ast.Tuple, ast.List)):
+                vals |= {e.value for e in tbl.elts if isinstance(e, ast.Constant) and isinstance(e.value, str)}
+    consts = sorted(vals)
     ok_a = ok_a and set(consts) >= {"\n", "\r\n", "\r"}
     res.add("R16.2", "detect", ok_a, dnl.where,
             "decoder returns (text, newline) with newline in {LF, CRLF, CR}" if ok_a else
@@ -276,6 +285,18 @@ def _check_main(ctx, res) -> None:
                 reps.append(c)
         kinds = {len(c.args[0].value) for c in reps}
         if kinds != {1, 2}:
+            # the same normalisation as a loop over a table of conventions: `for nl in ("\r\n", "\r"): text = text.replace(nl, "\n")`
+            for lp in [x for x in walk_local(f.node) if isinstance(x, ast.For) and isinstance(x.target, ast.Name)]:
+                tbl = idx.literal_node(f.unit.modname, lp.iter, f.cls)
+                vals = [e.value for e in tbl.elts if isinstance(e, ast.Constant)] if isinstance(tbl, (ast.Tuple, ast.List)) else []
+                uses = any(call_name(c) == "replace" and c.args and isinstance(c.args[0], ast.Name) and c.args[0].id == lp.target.id for c in calls_in(lp))
+                if uses and {len(v) for v in vals if v in ("\r\n", "\r", b"\r\n", b"\r")} == {1, 2}:
+                    n164 += 1
+                    order = [len(v) for v in vals if v in ("\r\n", "\r", b"\r\n", b"\r")]
+                    badl = order.index(1) < order.index(2)
+                    res.add("R16.4", f.qualname.split(".", 2)[-1], not badl, f.where,
+                            "CRLF stands before lone CR in the table of conventions the loop replaces" if not badl else
+                            "the table of newline conventions lists lone CR before CRLF: every CRLF becomes two newlines", function=f.qualname)
             continue
         n164 += 1
         cfg = CFG(f.node)
@@ -427,7 +448,9 @@ def coding_name_alphabet_rule(ctx, res, rule: str) -> None:
     f = idx.need_func("rope.base.fscommands._find_coding")
     punct = {ch for name in list(encodings.aliases.aliases) + list(encodings.aliases.aliases.values()) for ch in name if not ch.isalnum()} | {"-"}
     sets = []
-    for x in walk_local(f.node):
+    from . import common as _common
+    parts = _common.with_private_helpers(idx, f)  # (the scan for the end of the name may be a helper of the module)
+    for x in [y for g in parts for y in walk_local(g.node)]:
         if not (isinstance(x, ast.Compare) and len(x.ops) == 1 and isinstance(x.ops[0], (ast.In, ast.NotIn))):
             continue
         r = x.comparators[0]
@@ -450,11 +473,13 @@ def coding_name_alphabet_rule(ctx, res, rule: str) -> None:
                 "both PEP 263 delimiters ('=' and ':') are accepted after `coding`" if ok else
                 f"only {sorted(v)} is accepted after `coding`: a declaration written with {sorted({'=', ':'} - v)} (PEP 263 allows both) is not seen and the file "
                 "is decoded as UTF-8 / latin-1 instead of its declared encoding", function=f.qualname)
-    cfg = CFG(f.node)
-    breaks = [nd for nd in cfg.nodes if nd.kind == "stmt" and isinstance(nd.ast, (ast.Break, ast.Return))]
+    cfgs = {g.qualname: CFG(g.node) for g in parts}
     for k, (x, v) in enumerate(alpha, 1):
         # the scan stops (break) only for characters that are neither alphanumeric nor in the punctuation set: read
         # off the guards of the stop, however the test is written (one condition, nested ifs, a named boolean)
+        g = next(g for g in parts if any(y is x for y in ast.walk(g.node)))
+        cfg = cfgs[g.qualname]
+        breaks = [nd for nd in cfg.nodes if nd.kind == "stmt" and isinstance(nd.ast, (ast.Break, ast.Return))]
         stops = [nd for nd in breaks if any(t is x or any(y is x for y in ast.walk(t)) for t, _ in cfg.guards(nd.id))]
         has_alnum = bool(stops) and all(any(not pol and isinstance(t, ast.Call) and call_name(t) == "isalnum" for t, pol in cfg.guards(nd.id)) for nd in stops)
         missing = sorted(punct - v)
